@@ -810,10 +810,10 @@ Proof.
   - intros [E HP]. auto.
 Qed.
 
-Lemma conf_val_wrapP leafp eo S frs scs : forall t fc j,
-  conf_val_gen leafp eo fc S frs t scs j = true ->
+Lemma conf_val_wrapP leafp eo so S frs scs : forall t fc j,
+  conf_val_gen leafp eo so fc S frs t scs j = true ->
   wrapP (fun j' => j' <> JNull /\
-                   exists k, conf_val_gen leafp eo (Datatypes.S k) S frs (TNamed (base_name t)) scs j' = true) t j.
+                   exists k, conf_val_gen leafp eo so (Datatypes.S k) S frs (TNamed (base_name t)) scs j' = true) t j.
 Proof.
   induction t as [n | t IH | t IH]; intros fc j H; destruct fc as [|k]; try discriminate H.
   - simpl. destruct j; try (right; split; [discriminate | exists k; exact H]). left; reflexivity.
